@@ -62,14 +62,34 @@ var c13Pool = []string{
 	tkID(true, "jwt2", "alice"),
 	tkID(true, "", "mtls"),
 	tkID(true, "mtls", ""),
+	// long issuer-qualified subjects sharing long prefixes and differing only late (AAD tail =
+	// 0x01 ‖ domain ‖ 0 ‖ principal: the pairs agree on their first 40 / 46 / 47 / 64 / 100 / 300 bytes)
+	tkID(true, "oidc", c13Long(34, "a")), tkID(true, "oidc", c13Long(34, "b")), // differ at tail byte 40
+	tkID(true, "oidc", c13Long(40, "a")), tkID(true, "oidc", c13Long(40, "b")), // 46
+	tkID(true, "oidc", c13Long(41, "a")), tkID(true, "oidc", c13Long(41, "b")), // 47
+	tkID(true, "oidc", c13Long(58, "a")), tkID(true, "oidc", c13Long(58, "b")), // 64
+	tkID(true, c13Long(94, "x"), "p"), tkID(true, c13Long(94, "y"), "p"), // long domains, differ at 100
+	tkID(true, "oidc", c13Long(294, "a")), tkID(true, "oidc", c13Long(294, "b")), // 300
+}
+
+// c13Long: an issuer-qualified subject of n shared bytes followed by a distinguishing suffix.
+func c13Long(n int, suffix string) string {
+	base := "https://accounts.example.com/realms/production/tenants/0123456789abcdef/users/"
+	for len(base) < n {
+		base += "0123456789abcdef/"
+	}
+	return base[:n] + suffix
 }
 
 func c13Gen(g *Gen) {
 	r := g.Rng
 	var pairs [][2]string
-	for _, a := range c13Pool {
-		for _, b := range c13Pool {
-			pairs = append(pairs, [2]string{a, b})
+	const short = 20 // the first 20 pool entries pair with everyone; the long ones with their sibling, themselves and two short ones
+	for i, a := range c13Pool {
+		for j, b := range c13Pool {
+			if (i < short && j < short) || i/2 == j/2 || (i >= short && j < 2) || (j >= short && i < 2) {
+				pairs = append(pairs, [2]string{a, b})
+			}
 		}
 	}
 	rounds := g.N(1, 2)
@@ -154,6 +174,17 @@ func c13Gen(g *Gen) {
 				lines = append(lines, "suse i0 "+I+" sess=$s0|"+e)
 			}
 			lines = append(lines, "sclose i0 "+J+" sess=$s0", "sclose i0 "+I+" sess=$s0", "suse i0 "+I+" sess=$s0")
+			// sessions opened from inside stream turns (init handler, Exchange turn, Produce continuation):
+			// they belong to the caller of that turn exactly like one opened by a unary handler
+			for k, sm := range []string{"exch", "prod", "dyne"} {
+				sc, sk, ss := fmt.Sprintf("tc%d", k), fmt.Sprintf("tk%d", k), fmt.Sprintf("ts%d", k)
+				acceptInit := b2i(r.Chance(30))
+				lines = append(lines, fmt.Sprintf("init i0 %s %s limit=9 sess=- cur=%s call=%s sessopen=1 accept=%d sout=%s", I, sm, sc, sk, acceptInit, ss))
+				lines = append(lines, fmt.Sprintf("cont i0 %s %s cur=$%s call=$%s cancel=0 sess=- out=%s accept=1 sout=%s", I, sm, sc, sk, sc, ss))
+				lines = append(lines, "suse i0 "+I+" sess=$"+ss, "suse i0 "+J+" sess=$"+ss, "suse i0 anon sess=$"+ss)
+				lines = append(lines, fmt.Sprintf("cont i0 %s %s cur=$%s call=$%s cancel=0 sess=$%s out=%s accept=1", I, sm, sc, sk, ss, sc))
+				lines = append(lines, "sdel i0 anon sess=$"+ss, "sdel i0 "+I+" sess=$"+ss)
+			}
 			// eviction pressure: a FULL small cache, the victim's entry evicted by other identities' /init,
 			// then the victim continues — with another identity's call token, with none (size 1: any policy
 			// that admits new entries has dropped the victim) and with its own (must see its own call)
